@@ -363,6 +363,7 @@ pub fn run(tier: &Tier, args: &[String]) -> i32 {
     };
     let only = crate::report::arg_value(args, "--variant");
     let mut runs = Vec::new();
+    let mut samples: Vec<Value> = Vec::new();
     let mut total = 0u64;
     for (variant, disk) in variants {
         if only.as_deref().map(|o| o != variant).unwrap_or(false) {
@@ -402,6 +403,7 @@ pub fn run(tier: &Tier, args: &[String]) -> i32 {
                 replay: json!({"variant": variant, "disk": disk, "schedule": prefix, "trace": result.trace, "outputs": result.outputs, "kind": kind, "detail": detail}),
             });
         }
+        samples.extend(stats.samples.iter().cloned());
         runs.push(json!({
             "variant": variant, "backend": if disk { "disk" } else { "memory" }, "preemption_bound": b,
             "serial_orders_final_states": reference.len(),
@@ -419,6 +421,7 @@ pub fn run(tier: &Tier, args: &[String]) -> i32 {
         "traces_validated_against_impl": total,
         "rule": "every schedule of the variant's threads with at most the stated number of preemptions, executed on the real runtime from the same initial state: all threads complete (no deadlock), no call fails, the scheduler reports nothing fatal, and after settling the observable state is that of one of the serial orders and the tree is relying-party valid",
         "runs": runs,
+        "samples": samples.iter().take(6).collect::<Vec<_>>(),
         "exhaustive": !capped,
     });
     out.finish()
